@@ -17,7 +17,9 @@ RULE = ('histories of 3-10 operations (copy, copy_like, copy_thermal_condition, 
         '(ok / exception class), and for every stream of the final store kind, package, phases, dense flow rows, T, P, price, '
         'characterization factors, ID class, and the aliasing pattern (canonical labels of id() of the indexer, the data '
         'container, every row vector, the phase box and the thermal condition).  Every final stream is also pickled for real '
-        'and compared with the in-process reduce.  non-trivial = at least one operation succeeded and (a mutation changed an '
+        'and compared with the in-process reduce.  Flows are additionally read through the keyed access imol[phase, ID] after every '
+        'operation (so the index memo is filled before and used after every phase expansion) and through the mass view imass '
+        '(operations read_mass / set_mass create and write through the view; the model predicts which rows the view wraps).  non-trivial = at least one operation succeeded and (a mutation changed an '
         'observable or two streams share a cell); distinct = distinct case hash')
 ASSUMPTIONS = ['float rounding is not modelled: values compared to 1e-9 relative; inputs are dyadic so copies are exact',
                'links are only generated between streams of the same property package and, for MultiStreams, the same phase tuple '
@@ -28,7 +30,8 @@ ASSUMPTIONS = ['float rounding is not modelled: values compared to 1e-9 relative
                'MultiStream.proxy() leaves the MultiStream-only slots (_streams, equilibrium caches) unset, so assigning phase/phases '
                'to such a proxy raises AttributeError after rebinding _imol; those assignments are skipped as well',
                'characterization_factors, price, ID are plain values in the model (the dict shared by proxy() is not a heap cell)',
-               'sub-streams ms[phase] (LockedPhase), _data_cache / _property_cache and copy(thermo=...) / copy_flow are not modelled']
+               'sub-streams ms[phase] (LockedPhase), the volumetric view and _property_cache, copy(thermo=...) / copy_flow are not modelled; '
+               'of _data_cache only the mass view is modelled (which dict an indexer holds, which rows the view wraps)']
 TRUSTED = ['model coq/C13/Model.v is hand-written from thermosteam/_stream.py, _multi_stream.py, indexer.py, _phase.py, '
            '_thermal_condition.py; SparseVector rows are dense Q lists; tie = correspondence check on values and aliasing',
            'pickle of Reaction / Chemical / Thermo is executed, not modelled (harness compares observable state)']
@@ -83,13 +86,15 @@ def gen_stream(rng, k, pkg=None):
 
 OPS = ['copy', 'copy_like', 'copy_like', 'copy_like', 'copy_like', 'copy_tc', 'copy_phase', 'flow_proxy', 'proxy',
        'link', 'link', 'unlink', 'unlink', 'set_flow', 'set_flow', 'set_T', 'set_P', 'set_phase', 'set_phases',
-       'scale', 'empty', 'reduce']
+       'scale', 'empty', 'reduce', 'read_mass', 'read_mass', 'set_mass']
 
 def gen_op(rng):
     o = rng.choice(OPS)
     i, j = rng.randrange(64), rng.randrange(64)
-    if o in ('copy', 'flow_proxy', 'proxy', 'unlink', 'empty', 'reduce'):
+    if o in ('copy', 'flow_proxy', 'proxy', 'unlink', 'empty', 'reduce', 'read_mass'):
         return [o, i]
+    if o == 'set_mass':
+        return [o, i, rng.randrange(8), rng.randrange(8), rng.choice([0., 16., 32., 64., 8., 4., 128.])]
     if o in ('copy_like', 'copy_tc', 'copy_phase'):
         return [o, i, j]
     if o == 'link':
@@ -134,10 +139,37 @@ def targeted_cases(rng, n):
         cases.append({'streams': [a, b], 'ops': ops, 'rx': {'a': 1., 'b': 2., 'X': 0.5}})
     return cases
 
+def view_cases(rng, n):
+    """link -> look at the mass view -> unlink -> mutate, and copy_like with phase expansion around keyed look-ups"""
+    cases = []
+    for _ in range(n):
+        pkg = rng.randrange(2)
+        a = gen_stream(rng, 0, pkg); b = gen_stream(rng, 1, pkg)
+        if rng.random() < 0.7:
+            b = dict(b); b.update({k: a[k] for k in ('kind',) })
+            nb = len(PKGS[pkg])
+            if a['kind'] == 'S': b.update(phase=rng.choice(SINGLE_PHASES), flow=gen_vec(rng, nb)); b.pop('phases', None); b.pop('flows', None)
+            else: b.update(phases=list(a['phases']), flows={p: gen_vec(rng, nb) for p in a['phases']}); b.pop('phase', None); b.pop('flow', None)
+        c = gen_stream(rng, 2)
+        ops = []
+        if rng.random() < 0.7:
+            full = rng.random() < 0.7
+            ops.append(['link', 0, 1, True if full else rng.random() < 0.5, True if full else rng.random() < 0.5, True if full else rng.random() < 0.5])
+        for _ in range(rng.randint(0, 2)):
+            ops.append(rng.choice([['read_mass', rng.randrange(2)], ['set_mass', rng.randrange(2), rng.randrange(8), rng.randrange(8), 64.],
+                                   ['copy_like', rng.randrange(2), 2], ['flow_proxy', 0], ['proxy', 1]]))
+        ops.append(rng.choice([['unlink', 0], ['unlink', 1], ['unlink', 0], ['copy_like', 0, 2], ['link', 1, 0, True, True, True]]))
+        for _ in range(rng.randint(1, 3)):
+            ops.append(rng.choice([['set_flow', rng.randrange(2), rng.randrange(8), rng.randrange(8), rng.choice([8., 16., 0.5])],
+                                   ['set_mass', rng.randrange(2), rng.randrange(8), rng.randrange(8), rng.choice([64., 32., 128.])],
+                                   ['scale', rng.randrange(2), 2.], ['read_mass', rng.randrange(2)]]))
+        cases.append({'streams': [a, b, c], 'ops': ops, 'rx': {'a': 1., 'b': 2., 'X': 0.5}})
+    return cases
+
 def gen_cases(rng, tier):
-    n = 260 if tier == 'quick' else 4000
-    m = 90 if tier == 'quick' else 1500
-    return [gen_case(rng) for _ in range(n)] + targeted_cases(rng, m)
+    n = 220 if tier == 'quick' else 3500
+    m = 80 if tier == 'quick' else 1200
+    return [gen_case(rng) for _ in range(n)] + targeted_cases(rng, m) + view_cases(rng, m)
 
 # ------------------------------------------------------------------ implementation side
 def build_stream(spec):
@@ -202,6 +234,27 @@ def canon(ids):
         out.append(first[x])
     return out
 
+def keyed_rows(s):
+    """flows read through the public keyed access imol[phase, ID] / imol[ID] (fills and uses the index memo)"""
+    im = s._imol
+    ids = [c.ID for c in im._chemicals.tuple]
+    if is_multi(s):
+        if inconsistent(s): return [dense(r, len(ids)) for r in im.data.rows]
+        return [[float(im[p, i]) for i in ids] for p in im._phases]
+    return [[float(im[i]) for i in ids]]
+
+def mass_rows(s):
+    """what the mass view reads (creates the view when there is none)"""
+    d = s.imass.data
+    n = s._imol._chemicals.size
+    rows = d.rows if is_multi(s) else [d]
+    return [[float(r[i]) for i in range(n)] for r in rows]
+
+def touch_keys(store):
+    for s in store:
+        try: keyed_rows(s)
+        except Exception: pass
+
 def snapshot(store):
     vals = [values(s) for s in store]
     ids = []
@@ -231,8 +284,14 @@ def resolve(store, op):
         return ['skip']
     if name in ('set_phase', 'set_phases') and is_multi(store[i]) and not hasattr(store[i], '_streams'):
         return ['skip']   # a proxy of a MultiStream has no _streams: its phase setter raises half-way
-    if name in ('copy', 'flow_proxy', 'proxy', 'unlink', 'empty', 'reduce'):
+    if name in ('copy', 'flow_proxy', 'proxy', 'unlink', 'empty', 'reduce', 'read_mass'):
         return [name, i]
+    if name == 'set_mass':
+        s = store[i]
+        d = s.imass.data   # creates the view, as the operation itself does
+        nr = len(d.rows) if is_multi(s) else 1
+        if nr == 0: return ['skip']
+        return [name, i, op[2] % nr, op[3] % s._imol._chemicals.size, op[4]]
     if name in ('copy_like', 'copy_tc', 'copy_phase'):
         return [name, i, op[2] % n]
     if name == 'link':
@@ -278,6 +337,11 @@ def apply_op(store, rop):
     if name == 'reduce':
         f, args = s.__reduce__()
         return f(*args)
+    if name == 'read_mass': s.imass; return None
+    if name == 'set_mass':
+        if is_multi(s): s.imass.data[rop[2], rop[3]] = rop[4]
+        else: s.imass.data[rop[3]] = rop[4]
+        return None
     raise ValueError(name)
 
 def plus_equal(a, b, with_id=True):
@@ -332,8 +396,9 @@ def run_impl(case):
         except Exception as ex:
             out['new'].append(ERR.get(type(ex).__name__, 'EOther'))
     if not store:
-        out['final'] = []; out['pickle_ok'] = True; out['aux'] = []
+        out['final'] = []; out['pickle_ok'] = True; out['aux'] = []; out['keyed'] = []; out['mass'] = []
         return out
+    touch_keys(store)
     for op in case['ops']:
         rop = resolve(store, op)
         out['ops'].append(rop)
@@ -345,7 +410,10 @@ def run_impl(case):
         except Exception as ex:
             out['res'].append(ERR.get(type(ex).__name__, 'EOther'))
             out.setdefault('errors', []).append(type(ex).__name__)
+        touch_keys(store)
     out['final'] = snapshot(store)
+    out['keyed'] = [keyed_rows(s) for s in store]
+    out['mass'] = [mass_rows(s) for s in store]
     # real pickling of every final stream, compared with the in-process reduce (which the model predicts)
     ok = True; notes = []
     for k, s in enumerate(store):
@@ -406,6 +474,8 @@ def cop(o):
     if n == 'set_phase': return f'(OSetPhase {cnat(o[1])} {cph(o[2])})'
     if n == 'set_phases': return f'(OSetPhases {cnat(o[1])} {clist(o[2], cph)})'
     if n == 'scale': return f'(OScale {cnat(o[1])} {q(o[2])})'
+    if n == 'read_mass': return f'(OReadMass {cnat(o[1])})'
+    if n == 'set_mass': return f'(OSetMass {cnat(o[1])} {cnat(o[2])} {cnat(o[3])} {q(o[4])})'
     raise ValueError(n)
 
 def csnap(v):
@@ -422,7 +492,9 @@ def coq_case(case, out):
     res = clist([cerr(r) for r in out['new'] + out['res']])
     final = clist([csnap(v) for v in out['final']])
     side = out['pickle_ok'] and not out['aux']
-    return f'(run_eqb {model_ops(case, out)} {res} {final} && {cbool(side)})'
+    mass = clist([clist(m, qlist) for m in out['mass']])
+    keyed = clist([clist(m, qlist) for m in out['keyed']])
+    return f'(run_eqb {model_ops(case, out)} {res} {final} {mass} {keyed} && {cbool(side)})'
 
 def coq_show(case, out):
     return f'(run_show {model_ops(case, out)})'
@@ -431,7 +503,7 @@ def nontrivial(case, out):
     if 'final' not in out or not any(r == 'ok' for r in out.get('res', [])): return False
     labs = [l for v in out['final'] for l in v['labels']]
     shared = any(l != k for k, l in enumerate(labs))
-    return shared or len(out['final']) > len(case['streams']) or any(o[0] in ('set_flow', 'copy_like', 'scale', 'set_T') for o in out['ops'])
+    return shared or len(out['final']) > len(case['streams']) or any(o[0] in ('set_flow', 'copy_like', 'scale', 'set_T', 'set_mass') for o in out['ops'])
 
 def classify(case, out):
     ks = []
@@ -503,6 +575,24 @@ def probe_shared(a, b):
         res['phase'] = False
     return res
 
+def views_agree(store, name):
+    """every stream, read through the keyed access and through its mass view, shows its own current flows"""
+    for k, s in enumerate(store):
+        v = values(s)
+        if not v['cls_ok'] or inconsistent(s): continue
+        try:
+            kr = keyed_rows(s)
+        except Exception as ex:
+            return f'{name}: reading stream {k} by (phase, ID) raised {type(ex).__name__}'
+        if kr != v['rows']:
+            return f'{name}: flows of stream {k} read by (phase, ID) differ from its data rows: {kr} vs {v["rows"]}'
+        mw = [float(c.MW) for c in s._imol._chemicals.tuple]
+        want = [[x * m for x, m in zip(r, mw)] for r in v['rows']]
+        got = mass_rows(s)
+        if any(abs(a - b) > 1e-9 * max(1., abs(a), abs(b)) for ra, rb in zip(got, want) for a, b in zip(ra, rb)) or len(got) != len(want):
+            return f'{name}: the mass view of stream {k} does not show its own flows ({got} vs {want}): it still wraps data of another stream'
+    return None
+
 def oracle(case):
     env()
     store = []
@@ -528,6 +618,9 @@ def oracle(case):
             raised = None
         except Exception as ex:
             r = None; raised = type(ex).__name__
+        if name in ('read_mass', 'set_mass') and raised: return f'{name}: raised {raised}'
+        msg = views_agree(store, name)
+        if msg: return msg
         # frame: whatever happened to the target, streams sharing nothing with it are untouched
         for k in separate:
             if name == 'link' and k == rop[2]:
@@ -610,6 +703,8 @@ def oracle(case):
 def finding_key(case, msg):
     head = msg.split(':')[0]
     if head == 'unlink' and 'proxy' in msg: return 'C13:unlink-after-proxy'
+    if 'mass view' in msg: return 'C13:stale-mass-view'
+    if '(phase, ID)' in msg: return 'C13:keyed-access'
     return 'C13:' + head
 
 def _s(kind, pkg, **kw):
